@@ -547,21 +547,61 @@ func c11Pairing(c *Check) {
 			c.Hold("R2", "remoteDelivery.Close:msg-permit", r.FI.Decl.Pos(), !f2, "Close can return without ReleaseMsg: "+r.F.Describe(p2))
 		}
 	}
-	// (iii) every caller of remoteDelivery.Close is Commit or Abort (so C01/C03 typestate gives exactly one call)
+	// (iii) the code that returns the message permit runs exactly once per finished delivery: it lives in Close (called
+	// only from Commit and Abort), or – after a clean-up that merged Close's body into a shared helper – in Commit and
+	// Abort themselves (so C01/C03's typestate gives exactly one execution)
 	if pk := c.P.Pkg(remoteRel); pk != nil {
-		okCallers, n := true, 0
+		releases := map[*types.Func]bool{}
 		c.P.AllFuncs([]*packagesPkg{pk}, func(fi *FuncInfo) {
+			if inlinedAwayNow[fi.Obj] {
+				return
+			}
+			for _, call := range callsIn(fi.Decl.Body) {
+				if methodName(call) == "ReleaseMsg" {
+					releases[fi.Obj] = true
+				}
+			}
+		})
+		okCallers, n := true, 0
+		why := ""
+		for fn := range releases {
+			nm := refName(fn)
+			if nm != "Close" && nm != "Commit" && nm != "Abort" {
+				okCallers, why = false, "the message permit is returned in "+nm
+			}
+		}
+		c.P.AllFuncs([]*packagesPkg{pk}, func(fi *FuncInfo) {
+			if inlinedAwayNow[fi.Obj] {
+				return
+			}
+			nm := refName(fi.Obj)
+			cnt := 0
 			ast.Inspect(fi.Decl.Body, func(x ast.Node) bool {
-				if call, ok := x.(*ast.CallExpr); ok && isCall(fi.Info(), call, "~/"+remoteRel+".remoteDelivery.Close") {
-					n++
-					if refName(fi.Obj) != "Commit" && refName(fi.Obj) != "Abort" {
-						okCallers = false
+				if call, ok := x.(*ast.CallExpr); ok {
+					if fn := callee(fi.Info(), call); fn != nil && releases[fn] && fn != fi.Obj {
+						cnt++
 					}
 				}
 				return true
 			})
+			if cnt > 0 && nm != "Commit" && nm != "Abort" {
+				okCallers, why = false, nm+" calls the function that returns the permits"
+			}
+			if nm == "Commit" || nm == "Abort" {
+				if sig, ok := fi.Obj.Type().(*types.Signature); ok && sig.Recv() != nil && namedOf(sig.Recv().Type()) != nil && objName(namedOf(sig.Recv().Type()).Obj()) == "remoteDelivery" {
+					own := 0
+					if releases[fi.Obj] {
+						own = 1
+					}
+					if own+cnt == 1 {
+						n++
+					} else {
+						okCallers, why = false, nm+" returns the permits "+itoa(own+cnt)+" times"
+					}
+				}
+			}
 		})
-		c.Hold("R2", "remoteDelivery.Close:callers", token.NoPos, okCallers && n == 2, "remoteDelivery.Close (which returns the permits) is not called exactly from Commit and Abort")
+		c.Hold("R2", "remoteDelivery.Close:callers", token.NoPos, okCallers && n == 2, "the permits of a remote delivery are not returned exactly once, from Commit and from Abort: "+why)
 	}
 	// (iv) remote Start: TakeMsg success ⇒ delivery object returned (owner) ; failure ⇒ nil delivery
 	if r := c.need("R2", remoteRel, "Target", "Start"); r != nil {
